@@ -14,6 +14,7 @@ mod fieldwidths;
 mod fragments;
 mod cfgformat;
 mod reloadlive;
+mod reloadrace;
 mod datezone;
 mod registry;
 mod pattern;
@@ -44,6 +45,8 @@ fn main() {
         "cfgformat" => cfgformat::main(rest),
         "reloadlive" => reloadlive::main(rest),
         "reloadlive-child" => reloadlive::child(rest),
+        "reloadrace" => reloadrace::main(rest),
+        "reloadrace-child" => reloadrace::child(rest),
         "datezone" => datezone::main(rest),
         "registry" => registry::main(rest),
         "rolltrace" => rolltrace::main(rest),
